@@ -59,6 +59,10 @@ pub struct FaultCase {
     pub yields: Vec<u8>,
     /// life point: inject before the session's first flush (fresh session)
     pub fresh: bool,
+    /// the error kind of a write / flush fault: 0 broken pipe, 1 connection reset, 2 timed out,
+    /// 3 interrupted, 4 would block, 5 other
+    #[serde(default)]
+    pub write_kind: u8,
 }
 
 pub struct FaultFam;
@@ -102,6 +106,14 @@ async fn scenario(case: &FaultCase, fault_at: Option<usize>) -> Result<(Totals, 
     if case.shutdown_hangs && fault_at.is_some() {
         out_h.arm(Fault::ShutdownHangs);
     }
+    out_h.set_write_err_kind(match case.write_kind % 6 {
+        0 => ErrKind::BrokenPipe,
+        1 => ErrKind::ConnectionReset,
+        2 => ErrKind::TimedOut,
+        3 => ErrKind::Interrupted,
+        4 => ErrKind::WouldBlock,
+        _ => ErrKind::Other,
+    });
     let hb = if case.cause == Cause::Liveness { Some(SessionHeartbeatConfig { interval: Duration::from_secs(2), timeout: Duration::from_secs(5) }) } else { None };
 
     // arm byte-offset faults up front: the session runs into them wherever they are
@@ -494,6 +506,7 @@ fn cause_strategy() -> BoxedStrategy<Cause> {
         1 => Just(Cause::ReadErr(ErrKind::ConnectionReset)),
         1 => Just(Cause::ReadErr(ErrKind::UnexpectedEof)),
         1 => Just(Cause::ReadErr(ErrKind::Other)),
+        1 => prop_oneof![Just(ErrKind::TimedOut), Just(ErrKind::Interrupted), Just(ErrKind::WouldBlock)].prop_map(Cause::ReadErr),
         3 => Just(Cause::WriteErr),
         1 => Just(Cause::FlushErr),
         1 => Just(Cause::Alert(None)),
@@ -517,11 +530,11 @@ impl Family for FaultFam {
             any::<u16>(),
             proptest::bool::weighted(0.25),
             prop_oneof![2 => Just(Vec::new()), 1 => proptest::collection::vec(0u8..3, 0..40)],
-            proptest::bool::weighted(0.1),
+            (proptest::bool::weighted(0.1), prop_oneof![3 => Just(0u8), 1 => 1u8..6]),
         )
-            .prop_map(|((client_role, n_streams, n_pending, blocked_readers, writers), (wchunk, out_cap), cause, pos, shutdown_hangs, yields, fresh)| {
+            .prop_map(|((client_role, n_streams, n_pending, blocked_readers, writers), (wchunk, out_cap), cause, pos, shutdown_hangs, yields, (fresh, write_kind))| {
                 let cause = if cause == Cause::Liveness && !client_role { Cause::PeerEof } else { cause };
-                FaultCase { client_role, n_streams, n_pending, blocked_readers, writers, wchunk, out_cap, cause, pos, shutdown_hangs, yields, fresh }
+                FaultCase { client_role, n_streams, n_pending, blocked_readers, writers, wchunk, out_cap, cause, pos, shutdown_hangs, yields, fresh, write_kind }
             })
             .boxed()
     }
@@ -535,6 +548,8 @@ impl Family for FaultFam {
                 Cause::ReadErr(ErrKind::ConnectionReset),
                 Cause::ReadErr(ErrKind::UnexpectedEof),
                 Cause::ReadErr(ErrKind::Other),
+                Cause::ReadErr(ErrKind::TimedOut),
+                Cause::ReadErr(ErrKind::Interrupted),
                 Cause::WriteErr,
                 Cause::FlushErr,
                 Cause::Alert(None),
@@ -571,6 +586,7 @@ impl Family for FaultFam {
                             shutdown_hangs: hangs,
                             yields: vec![],
                             fresh: false,
+                            write_kind: (s % 6) as u8,
                         });
                     }
                 }
